@@ -228,7 +228,7 @@ func c05Names(c *Ctx) {
 	}
 	c.Exhaustive("names: all pairs over the special set ( ) , : ; ' _ space TAB LF CR, bare, around and inside letters")
 	// Random byte-string names.
-	n := c.N(2000, 60000)
+	n := c.N(6000, 200000)
 	for i := 0; i < n; i++ {
 		c.Case(idx, func(k *K) {
 			r := k.Rand()
@@ -249,7 +249,7 @@ func c05Names(c *Ctx) {
 }
 
 func c05Random(c *Ctx) {
-	n := c.N(600, 20000)
+	n := c.N(2000, 100000)
 	for i := 0; i < n; i++ {
 		c.Case(int64(i), func(k *K) {
 			r := k.Rand()
@@ -305,7 +305,7 @@ func c05Deep(c *Ctx) {
 var treeSeparators = []string{"", " ", "\n", "\r\n", "\t \n"}
 
 func c05Sequences(c *Ctx) {
-	n := c.N(400, 10000)
+	n := c.N(1500, 50000)
 	for i := 0; i < n; i++ {
 		c.Case(int64(i), func(k *K) {
 			r := k.Rand()
@@ -340,7 +340,7 @@ func c05Sequences(c *Ctx) {
 
 // c05Long: names longer than the usual I/O buffers, quoted and unquoted.
 func c05Long(c *Ctx) {
-	n := c.N(100, 2000)
+	n := c.N(120, 4000)
 	for i := 0; i < n; i++ {
 		c.Case(int64(i), func(k *K) {
 			r := k.Rand()
